@@ -61,8 +61,8 @@ warnings.filterwarnings("ignore")
 
 
 # ------------------------------------------------------------------ watchdog
-class ImplTimeout(Exception):
-    pass
+class ImplTimeout(BaseException):
+    """Not an Exception: numpy.ma swallows `Exception`s in several places, which would disarm a one-shot watchdog."""
 
 
 def _raise_timeout(signum, frame):
@@ -75,7 +75,7 @@ def with_watchdog(fn, seconds=WATCHDOG):
     if main:
         old = signal.signal(signal.SIGALRM, _raise_timeout)
         left = signal.alarm(0)
-        signal.setitimer(signal.ITIMER_REAL, seconds)
+        signal.setitimer(signal.ITIMER_REAL, seconds, 0.25)  # repeats until cancelled
     try:
         try:
             return "ok", fn()
@@ -519,6 +519,9 @@ def gen_values(rng, kind, n, msamp, style):
         elif style == "far":     # one member far off in the direction of another: never the best candidate
             y = [0.0] * msamp
             preds = [[rng.choice([-1.0, 1.0]) * rng.choice([1, 1, 1, 10]) for _ in range(msamp)] for _ in range(n)]
+        elif style == "opposed":  # errors of alternating sign: averaging members helps, so greedy steps are accepted
+            y = [rng.uniform(-2, 2) for _ in range(msamp)]
+            preds = [[yy + (1 if (i + s) % 2 else -1) * rng.uniform(0.2, 2.0) for s, yy in enumerate(y)] for i in range(n)]
         else:
             y = [rng.uniform(-2, 2) for _ in range(msamp)]
             preds = [[yy + rng.gauss(0, 1.5) for yy in y] for _ in range(n)]
@@ -553,27 +556,27 @@ def gen_masks(rng, n, msamp):
 
 
 def gen_opts(rng, n, kind, i):
-    k = rng.choice([1, 2, 3, 5, 5, 8, 15])
-    k_init = rng.choice([1, 1, 2, 3, 5, 15])
+    k_init = rng.choice([1, 1, 1, 2, 2, 3, 5, 15])
+    k = k_init + rng.choice([1, 2, 3, 5, 10]) if rng.random() < 0.8 else rng.choice([1, 2, 3, 5])
     es, repl, bag = bool(i & 1), bool(i & 2), bool(i & 4)
-    max_it = rng.choice([-1, -1, -1, -1, 0, 1, 3, 10])
+    max_it = rng.choice([-1] * 12 + [0, 1, 1, 3, 3, 10, 10])
     if kind == "table":
-        eps = rng.choice([0.0, 1e-3, 1.0, 2.0])
+        eps = rng.choice([0.0, 0.0, 1e-3, 1.0, 2.0])
     else:
-        eps = rng.choice([1e-3, 1e-3, 0.0625, 0.5])
+        eps = rng.choice([1e-3, 1e-3, 1e-3, 0.0625, 0.5])
     return dict(k=k, k_init=k_init, max_it=max_it, eps_tol=eps, es=es, repl=repl, bag=bag, seed=rng.randint(0, 999))
 
 
 KINDS = ["se", "se", "ae", "cce", "zo", "table", "table"]
-STYLES = ["float", "grid", "dups", "far"]
+STYLES = ["float", "opposed", "opposed", "grid", "dups", "far"]
 
 
 def gen_case(rng, i, small=False):
     kind = KINDS[i % len(KINDS)]
-    n = rng.choice([1, 1, 2, 2, 3, 3, 4, 5, 6, 8, 10, 12]) if not small else rng.randint(1, 4)
+    n = rng.choice([1, 2, 2, 3, 3, 4, 4, 5, 6, 8, 10, 12]) if not small else rng.randint(1, 4)
     msamp = rng.randint(1, 5)
     if kind == "table":
-        mode = rng.choice(["hash2", "hash4", "hash4", "hash64", "weight_of:%d" % rng.randrange(n)])
+        mode = rng.choice(["hash2", "hash4", "hash16", "hash64", "hash64", "weight_of:%d" % rng.randrange(n)])
         case = dict(kind=kind, preds=[0] * n, table=mode, salt=str(rng.randint(0, 10 ** 6)))
     else:
         y, preds = gen_values(rng, kind, n, msamp, rng.choice(STYLES))
